@@ -2,6 +2,9 @@ import MsiProofs.Props.C01
 import MsiProofs.Lemmas.EndToEnd
 import MsiProofs.Lemmas.Lifecycle
 import MsiProofs.Lemmas.AsciiLifecycle
+import MsiProofs.Lemmas.Utf8Lifecycle
+import MsiProofs.Lemmas.Lifecycle2
+import MsiProofs.Lemmas.ClosedLifecycle
 /-
 C01, end to end on the model — from any state satisfying the package invariants (reference counts
 exact up to a slack, keys ascending, metadata streams in sync, catalog tables in sync with the table
@@ -66,6 +69,23 @@ entry, texts satisfying the predicate the inputs satisfy, a supported code page)
 def historyA := @MsiProofs.AsciiLifecycle.historyA
 def step_pt := @MsiProofs.AsciiLifecycle.step_pt
 
+/-- **the model's UTF-8 decoder (WHATWG, with replacement) reads the encoding of any text back** -/
+def utf8_lossy_roundtrip := @MsiProofs.Utf8Codec.lossy_roundtrip
+/-- every text round-trips under the UTF-8 code page -/
+def utf8_roundtrip := @MsiProofs.Utf8Lifecycle.utf8_roundtrip
+/-- a pool of any texts is expressible under UTF-8 (no live empty entry, counts and lengths in range) -/
+def poolOk_utf8 := @MsiProofs.Utf8Lifecycle.poolOk_utf8
+/-- every reachable state keeps every invariant and a pool fit to be written under UTF-8 -/
+def historyU := @MsiProofs.Utf8Lifecycle.historyU
+/-- **the `Savable` hypothesis discharged for ANY Unicode text under the UTF-8 code page** (the
+default): only the summary's well-formedness is assumed at a save -/
+def created_utf8_reopens := @MsiProofs.Utf8Lifecycle.created_utf8_reopens
+
+/-- **every `create_table` call that returns is covered**: `create_table` is atomic, so the
+lifecycle theorem needs no restriction on it beyond "no capacity panic" -/
+def created_reopens_all := @MsiProofs.Lifecycle2.created_reopens_all
+def history_all := @MsiProofs.Lifecycle2.history_all
+
 /-- non-vacuity: `Package::create` succeeds (kernel evaluation of the model) -/
 theorem create_succeeds : (create Profile.dev 0).isOk = true := by decide +kernel
 
@@ -104,5 +124,83 @@ theorem demo_admissible : Admissible demoPkg
 theorem demo_accepted :
     (insertExec { (createTable demoPkg "Demo".toList demoCols).1 with finisher := true } "Demo".toList
       [[.int 7, .str "seven".toList], [.int 8, .null]]).2 = .ok () := by decide +kernel
+
+
+/-- **the whole-life theorem with every hypothesis discharged** (UTF-8, any Unicode text): from
+`Package::create`, after ANY sequence of covered calls - none assumed to succeed, only not to hit
+the capacity panic - a save succeeds and the saved container reopens as the same package -/
+def create_closed := @MsiProofs.ClosedLifecycle.create_closed
+def created_closed := @MsiProofs.ClosedLifecycle.created_closed
+/-- one covered call keeps every invariant, the pool and the summary expressible -/
+def step_closed := @MsiProofs.ClosedLifecycle.step_closed
+/-- a state that can be written is written: the finisher succeeds -/
+def finish_ok := @MsiProofs.ClosedLifecycle.finish_ok
+/-- the summary setters and clearers keep the summary information a well-formed property set -/
+def sumInv_apply := @MsiProofs.SummaryInv.sumInv_apply
+def sumInv_wf := @MsiProofs.SummaryInv.sumInv_wf
+
+open MsiProofs.ClosedLifecycle MsiProofs.SummaryInv MsiProofs.Utf8Lifecycle MsiProofs.AsciiLifecycle in
+/-- non-vacuity of the closed theorem: a history with non-ASCII text, an accepted and a refused
+insert, a summary setter, a save and a close-and-reopen is covered -/
+theorem demo_closed : AdmissibleC demoPkg
+    [.create "Demo".toList demoCols,
+     .dml (.insert "Demo".toList [[.int 7, .str "s\u00e9ven \u65e5\u672c".toList], [.int 8, .null]]),
+     .dml (.insert "Demo".toList [[.int 7, .null]]),
+     .setSummary (SumOp.apply (.str Gen.propAuthor "J\u00fcrgen".toList)),
+     .save,
+     .reopen] := by
+  have hcr : (createTable demoPkg "Demo".toList demoCols).2 = .ok () := by decide +kernel
+  have short : ∀ st : List Char, st.length ≤ 1000 → Utf8Short st := by
+    intro st hl
+    show (utf8Bytes st).length < 4294967296
+    have := MsiProofs.SummaryInv.utf8Bytes_le st
+    omega
+  have user : MsiProofs.EndToEnd.UserOp (.insert "Demo".toList [[.int 7, .str "s\u00e9ven \u65e5\u672c".toList], [.int 8, .null]]) := by
+    show MsiProofs.CatalogSync.isCatalogName "Demo".toList = false; decide
+  have user2 : MsiProofs.EndToEnd.UserOp (.insert "Demo".toList [[.int 7, .null]]) := by
+    show MsiProofs.CatalogSync.isCatalogName "Demo".toList = false; decide
+  constructor
+  · -- create_table
+    refine ⟨(fun w h => by rw [hcr] at h; cases h), ?_, ?_, ?_⟩
+    · exact rowsA_utf8_of_ascii _ (rowsA_of_check _ (by decide +kernel))
+    · exact rowsA_utf8_of_ascii _ (rowsA_of_check _ (by decide +kernel))
+    · exact rowsA_utf8_of_ascii _ (rowsA_of_check _ (by decide +kernel))
+  constructor
+  · -- an insert with non-ASCII text
+    refine ⟨user, ?_⟩
+    intro r hr v hv
+    cases v with
+    | null => trivial
+    | int n => trivial
+    | str st =>
+      apply short
+      simp only [List.mem_cons, List.mem_nil_iff, or_false] at hr
+      rcases hr with rfl | rfl <;> simp only [List.mem_cons, List.mem_nil_iff, or_false] at hv <;>
+        rcases hv with hv | hv <;> cases hv <;> decide
+  constructor
+  · -- a refused insert (duplicate key)
+    refine ⟨user2, ?_⟩
+    intro r hr v hv
+    cases v with
+    | null => trivial
+    | int n => trivial
+    | str st =>
+      simp only [List.mem_cons, List.mem_nil_iff, or_false] at hr
+      subst hr
+      simp only [List.mem_cons, List.mem_nil_iff, or_false] at hv
+      rcases hv with hv | hv <;> cases hv
+  constructor
+  · -- a summary setter
+    refine ⟨SumOp.str Gen.propAuthor "J\u00fcrgen".toList, ⟨by decide, ?_⟩, rfl⟩
+    show (utf8Bytes _).length < bound
+    have := MsiProofs.SummaryInv.utf8Bytes_le "J\u00fcrgen".toList
+    have hl : "J\u00fcrgen".toList.length = 6 := by decide
+    unfold bound; omega
+  constructor
+  · trivial
+  constructor
+  · -- close and reopen: nothing is pending after the save
+    constructor <;> decide +kernel
+  · trivial
 
 end MsiProofs.C01
